@@ -811,8 +811,12 @@ func (gs *GossipSubRouter) OnClosedOutboundStream(p peer.ID) {
 		gs.extensions.OnClosedOutboundStream(p)
 	}
 	delete(gs.peers, p)
-	for _, peers := range gs.mesh {
-		delete(peers, p)
+	for topic, peers := range gs.mesh {
+		if _, inMesh := peers[p]; inMesh {
+			// the peer leaves the mesh without a PRUNE: release its connmgr protection
+			gs.tagTracer.untagMeshPeer(p, topic)
+			delete(peers, p)
+		}
 	}
 	for _, peers := range gs.fanout {
 		delete(peers, p)
